@@ -338,6 +338,29 @@ def ob_inverse_defined_logdiff():
     return Ob("C07.inverse_defined[LogDifferenceRateTransform]", "U", body, clause="inverse is defined", funcs=FUNCS)
 
 
+def ob_reparam_history(kind, depth):
+    """every history (length <= depth) of {assign, in-place update + notification, read heights, read branch lengths, call} on the real
+    ReparameterizedTimeTreeModel: each checked read equals that of a fresh model at the current parameter value"""
+    def body():
+        bad, n, seen = treemodels.reparam_histories(kind, depth, check=("call",))
+        if bad is not None:
+            hist, op, got, want = bad
+            raise Refuted("%s tree after the history %s: %s returns %s, a fresh model at the current parameter value returns %s" % (kind, list(hist), op, got, want),
+                          witness={"kind": kind, "history": list(hist)}, replay={"kind": "custom", "contract": "C07", "func": "replay_reparam_history", "args": {"kind": kind, "depth": depth}}, confirmed=True)
+        allst = [set().union(*seen[:d + 1]) for d in range(len(seen))]
+        sat = next((d for d in range(1, len(allst) - 1) if allst[d] == allst[-1]), None)
+        return {"backend": "heap", "cases": n, "statement": "%d histories; dirty-flag states reached: %d, saturated from depth %s (exhaustive modulo the flag abstraction if saturated)" % (n, len(allst[-1]), sat)}
+    return Ob("C07.reparam.history[%s,depth<=%d]" % (kind, depth), "B", body, clause="a reparameterised tree model, when called, returns the log-Jacobian for its CURRENT value after every history of updates and reads", funcs=FUNCS)
+
+
+def replay_reparam_history(args):
+    try:
+        ob_reparam_history(args["kind"], args["depth"]).fn()
+    except Refuted as e:
+        return False, e.detail
+    return True, "held"
+
+
 def replay_inverse_logdiff(args):
     try:
         ob_inverse_defined_logdiff().fn()
@@ -381,6 +404,8 @@ def obligations(tier, seed):
     import torchtree.distributions.transforms as tr
     obs.append(ob_ladj_raises("TrilExpDiagonalTransform", tr.TrilExpDiagonalTransform))
     obs.append(ob_inverse_defined_logdiff())
+    for kind in ('ratios', 'shifts'):
+        obs.append(ob_reparam_history(kind, 4 if tier == 'quick' else 5))
     patterns = list(treemodels.DATE_PATTERNS)
     for T in ((3, 4) if tier == "quick" else (3, 4, 5)):
         for k, ts in enumerate(_tree_strs(T)):
